@@ -107,6 +107,8 @@ class Weaver:
         self.rules = []         # R1 / E6 applications
         self.assumptions = []   # external_body / assume_specification / uninterp occurrences
         self._src_cache = {}
+        # `//@cfg-bodies` anywhere in the unit: #[cfg(..)] inside extracted text is evaluated (rule E3 applied to bodies)
+        self.cfg_bodies = '//@cfg-bodies' in open(unit_path).read()
 
     # ---------------------------------------------------------------- helpers
     def src(self, rel):
@@ -115,6 +117,8 @@ class Weaver:
             if not os.path.exists(p):
                 raise AnchorLost('file missing: %s' % rel)
             s = open(p).read()
+            if self.cfg_bodies:
+                s = rs.blank_cfg(s, self.cfg)
             self._src_cache[rel] = (s, rs.mask(s))
         return self._src_cache[rel]
 
@@ -262,6 +266,37 @@ class Weaver:
                 add(lo, 0, '\nproof { assert(false); } // CANARY\n', {'k': 'canary', 'fn': fname})
             if d.get('at', {}).get('body-start'):
                 add(lo, 1, '\n' + '\n'.join(d['at']['body-start']) + '\n', {'k': 'ghost', 'fn': fname, 'what': 'at body-start'})
+        if d.get('at', {}).get('body-end'):
+            # structural anchor: just before the tail expression of the function body (the text after the last top-level
+            # `;` or statement-ending `}`); if the body has no such shape the anchor is lost (exit 2)
+            j = hi - 1
+            while j > lo and m[j].isspace():
+                j -= 1
+            if m[j] in ';}':
+                pos_end = j + 1          # no tail expression: insert at the very end
+            else:
+                depth = 0
+                k = j
+                pos_end = None
+                while k > lo:
+                    c = m[k]
+                    if depth == 0 and c == ';':
+                        pos_end = k + 1
+                        break
+                    if depth == 0 and c == '}' and k < j:
+                        # a block statement ends here only if what follows does not continue the expression
+                        rest = m[k + 1:j + 1].lstrip()
+                        if not rest.startswith(('.', '?', 'else')):
+                            pos_end = k + 1
+                            break
+                    if c in ')]}':
+                        depth += 1
+                    elif c in '([{':
+                        depth -= 1
+                    k -= 1
+                if pos_end is None:
+                    raise AnchorLost('%s :: %s: body-end anchor: no statement boundary before the tail expression' % (rel, path))
+            add(pos_end, 1, '\n' + '\n'.join(d['at']['body-end']) + '\n', {'k': 'ghost', 'fn': fname, 'what': 'at body-end'})
         desugar = d.get('desugar_for', False)
         for n, lp in enumerate(body_loops, start=1):
             spec = d.get('loops', {}).get(str(n), {})
@@ -379,6 +414,9 @@ class Weaver:
                 txt = open(p).read()
                 self.emit(txt if txt.endswith('\n') else txt + '\n', {'k': 'header', 'file': 'headers/' + f, 'line': 1})
                 i += 1
+            elif st.startswith('//@cfg-bodies'):
+                self.rules.append({'rule': 'E3 cfg evaluation inside bodies (default features, not(test))', 'fn': '*', 'loop': 0})
+                i += 1
             elif st.startswith('//@item '):
                 spec = st[len('//@item '):]
                 opts = {}
@@ -429,6 +467,8 @@ class Weaver:
                         elif tok[0] == 'at':
                             if tok[1] == 'body-start':
                                 cur = ('text', d['at'].setdefault('body-start', []))
+                            elif tok[1] == 'body-end':
+                                cur = ('text', d['at'].setdefault('body-end', []))
                             elif tok[1] == 'loop':
                                 cur = ('text', d['at_loop'].setdefault(tok[2], {}).setdefault(tok[3], []))
                             elif tok[1] == 'after-loop':
